@@ -673,7 +673,7 @@ Qed.
 Definition pinned_env : env := env_of [mkSres true (str "a") MNone; mkSres false [] MNone] [].
 Definition pinned_cfg : ccfg :=
   mkCcfg [mkMech (str "X-A") KScript] [(true, str "X-A")] (mkCreds [] (str "test") []).
-Definition pinned_script : list citem := [CChallenge (Some (mkPay 4 (Some (str "a"))))].
+Definition pinned_script : list citem := [CChallenge (Some (mkPay PText (Some (str "a"))))].
 
 Lemma pinned_refuted :
   authn (negotiate_client_pinned pinned_env pinned_cfg pinned_script) = true /\
@@ -721,8 +721,9 @@ Definition tables_statement : Prop :=
    cond_of (str "ConditionNotAuthorized") sasl_conditions = Some cond_not_authorized /\
    sasl_server_conditions = [str "ConditionInvalidMechanism"; str "ConditionAborted"; str "ConditionMalformedRequest";
                              str "ConditionMalformedRequest"; str "ConditionNotAuthorized"]) /\
-  (* "l := DecodedLen(len(payload)); if l > 1": exactly the payloads of four or more characters are decoded *)
-  forallb (fun n => Bool.eqb (Nat.ltb sasl_payload_threshold (n / 4 * 3)) (negb (Nat.ltb n 4))) (seq 0 200) = true.
+  (* the receiver skips the base64 decoder for no character data and for "=" only *)
+  (sasl_server_decode_subject = str "selection.Payload" /\
+   sasl_server_decode_guard = str "len(p) > 0 && !(len(p) == 1 && p[0] == '=')").
 
 Lemma tables : tables_statement.
 Proof. unfold tables_statement. vm_compute. repeat split; reflexivity. Qed.
